@@ -234,7 +234,13 @@ fn cli_args(e: &BFCase, file: &str, by_options: bool) -> (Vec<String>, Vec<(Stri
 /// `text` with two metadata lines (area, k_exp) at the top (pos 1), after the first component line (2) or at the end (3)
 fn with_meta(text: &str, area: f32, k: f32, pos: u8) -> String {
     let nl = if text.contains("\r\n") { "\r\n" } else { "\n" };
-    let meta = format!("#META CTE_AREAREF: {:.2}{}#META CTE_KEXP: {:.1}{}", area, nl, k, nl);
+    // the rewritten file also spells the metadata lines with other inner whitespace (blanks or tabs around the key
+    // and the colon are whitespace like any other)
+    let meta = match pos {
+        2 => format!("#META CTE_AREAREF : {:.2}{}#META  CTE_KEXP :{:.1}{}", area, nl, k, nl),
+        3 => format!("#META\tCTE_AREAREF\t:\t{:.2}{}#META CTE_KEXP:{:.1}  {}", area, nl, k, nl),
+        _ => format!("#META CTE_AREAREF: {:.2}{}#META CTE_KEXP: {:.1}{}", area, nl, k, nl),
+    };
     let (bom, body) = match text.strip_prefix('\u{feff}') {
         Some(rest) => ("\u{feff}", rest),
         None => ("", text),
